@@ -9,6 +9,7 @@ import (
 	"path/filepath"
 	"sort"
 	"strings"
+	"syscall"
 )
 
 // Snap records every entry below dir: relative path -> descriptor (kind, permissions, size, content hash, mtime for
@@ -119,6 +120,11 @@ func makeJail(base string, spec *FSSpec) error {
 	if err := os.MkdirAll(target, 0o755); err != nil {
 		return err
 	}
+	if spec.InodeLimit > 0 {
+		if err := syscall.Mount("tmpfs", target, "tmpfs", 0, fmt.Sprintf("size=1m,nr_inodes=%d,mode=755", spec.InodeLimit)); err != nil {
+			return fmt.Errorf("mount tmpfs: %w", err)
+		}
+	}
 	for _, e := range spec.Pre {
 		p := filepath.Join(target, e.Path)
 		if !strings.HasPrefix(p, target+string(filepath.Separator)) {
@@ -146,6 +152,41 @@ func makeJail(base string, spec *FSSpec) error {
 		}
 	}
 	return nil
+}
+
+// ReleaseJail removes a jail (and detaches the tmpfs an InodeLimit put on its target).
+func ReleaseJail(base string) {
+	syscall.Unmount(filepath.Join(base, JailTarget), syscall.MNT_DETACH) // EINVAL when nothing is mounted there
+	os.RemoveAll(base)
+}
+
+// MountWorks reports whether this process may mount a tmpfs (needed for FSSpec.InodeLimit).
+func MountWorks(scratch string) bool {
+	d, err := os.MkdirTemp(scratch, "mnt-probe")
+	if err != nil {
+		return false
+	}
+	defer os.Remove(d)
+	if err := syscall.Mount("tmpfs", d, "tmpfs", 0, "size=64k,nr_inodes=2"); err != nil {
+		return false
+	}
+	syscall.Unmount(d, syscall.MNT_DETACH)
+	return true
+}
+
+// CleanMounts detaches every mount left below dir (a worker killed by its watchdog cannot release its jail).
+func CleanMounts(dir string) {
+	b, err := os.ReadFile("/proc/self/mounts")
+	if err != nil {
+		return
+	}
+	lines := strings.Split(string(b), "\n")
+	for i := len(lines) - 1; i >= 0; i-- {
+		f := strings.Fields(lines[i])
+		if len(f) >= 2 && strings.HasPrefix(f[1], dir+"/") {
+			syscall.Unmount(f[1], syscall.MNT_DETACH)
+		}
+	}
 }
 
 // MakeJail creates the jail layout under base (exported for checks that run an external process in a jail).
